@@ -713,7 +713,20 @@ impl Quil for Expression {
                 expression,
             }) => {
                 write!(f, "{operator}")?;
-                format_inner_expression(f, fall_back_to_debug, expression)
+                // Only one prefix operator may precede an operand, so an operand that is itself
+                // written with a leading sign has to be grouped.
+                let starts_with_sign = match &**expression {
+                    Prefix(_) => true,
+                    Number(value) => value.re < 0f64 || (value.re == 0f64 && value.im < 0f64),
+                    _ => false,
+                };
+                if starts_with_sign {
+                    write!(f, "(")?;
+                    expression.write(f, fall_back_to_debug)?;
+                    write!(f, ")").map_err(Into::into)
+                } else {
+                    format_inner_expression(f, fall_back_to_debug, expression)
+                }
             }
             Variable(identifier) => write!(f, "%{identifier}").map_err(Into::into),
         }
@@ -737,6 +750,14 @@ fn format_inner_expression(
             format_inner_expression(f, fall_back_to_debug, left)?;
             write!(f, "{operator}")?;
             format_inner_expression(f, fall_back_to_debug, right)?;
+            write!(f, ")")?;
+            Ok(())
+        }
+        // A number with both a real and an imaginary part is written as a sum, so it needs the
+        // same treatment to remain a single operand.
+        Expression::Number(value) if value.re != 0f64 && value.im != 0f64 => {
+            write!(f, "(")?;
+            expression.write(f, fall_back_to_debug)?;
             write!(f, ")")?;
             Ok(())
         }
